@@ -64,7 +64,7 @@ JustResumed(activeAge, incr) == [V(FALSE, FALSE, activeAge, 1, incr, 250) EXCEPT
 WithUnfit(v, k) == [v EXCEPT !.unfit = k]
 VariantsQuick == { V(FALSE, FALSE, 4, 1, "5", 250), V(TRUE, FALSE, 4, 1, "5", 250), V(FALSE, TRUE, 4, 1, "5", 250),
                    V(FALSE, FALSE, 0, 2, "1", 250), V(FALSE, FALSE, 3, 2, "1", 2), V(FALSE, FALSE, 2, 1, "34%", 250),
-                   JustResumed(4, "1"), WithUnfit(V(FALSE, FALSE, 4, 1, "34%", 250), 3) }
+                   JustResumed(4, "1"), WithUnfit(V(FALSE, FALSE, 4, 1, "34%", 250), 3), WithUnfit(V(FALSE, FALSE, 0, 1, "34%", 250), 3) }
 VariantsThorough == VariantsQuick \cup { V(FALSE, FALSE, a, i, c, mp) : a \in {0, 1, 5}, i \in {1, 2}, c \in {"1", "2", "100%"}, mp \in {1, 3} }
 
 V0 == V(FALSE, FALSE, 4, 1, "5", 250)
